@@ -264,15 +264,80 @@ Definition impl_split_part (cs d : list N) (n : Z) : outcome (list N) :=
   if is_nil d then Ok (if (n =? 1)%Z then cs else [])
   else if (0 <? n)%Z then Ok (nth_list (split_go cs d [] 0) (Z.to_N (n - 1)))
   else if (n <? 0)%Z then
-    if (n =? MIN64)%Z then Panic
-    else (* s.rsplit(d).nth(-n - 1): searched from the end *)
-         Ok (nth_list (map (@rev N) (split_go (rev cs) (rev d) [] 0)) (Z.to_N (- n - 1)))
+    (* s.rsplit(d).nth(n.unsigned_abs() - 1): searched from the end *)
+    Ok (nth_list (map (@rev N) (split_go (rev cs) (rev d) [] 0)) (Z.to_N (- n - 1)))
   else Ok [].
 Definition spec_split_part (cs d : list N) (n : Z) : option (list N) :=
   if (n =? 0)%Z then None
   else if is_nil d then Some (if (n =? 1)%Z || (n =? -1)%Z then cs else [])
   else if (0 <? n)%Z then Some (nth_list (split_go cs d [] 0) (Z.to_N (n - 1)))
   else Some (nth_list (rev (split_go cs d [] 0)) (Z.to_N (- n - 1))).
+
+(* ---- translate.rs as written: a map built with entry(c).or_insert_with(..), first entry wins ---- *)
+Fixpoint map_lookup (c : N) (m : list (N * option N)) : option (option N) :=
+  match m with [] => None | (k, v) :: r => if k =? c then Some v else map_lookup c r end.
+Fixpoint build_map (from to : list N) (i : N) (m : list (N * option N)) : list (N * option N) :=
+  match from with
+  | [] => m
+  | c :: r => build_map r to (i + 1)
+                (match map_lookup c m with Some _ => m | None => m ++ [(c, nthN to i)] end)
+  end.
+Definition translate_map (cs from to : list N) : outcome (list N) :=
+  let m := build_map from to 0 [] in
+  Ok (flat_map (fun c => match map_lookup c m with
+                         | Some (Some y) => [y]
+                         | Some None => []
+                         | None => [c]
+                         end) cs).
+
+(* ---- repeat: the definition (n copies) ---- *)
+Definition spec_repeat_copies (cs : list N) (num : Z) : list N :=
+  concat (repeat cs (N.to_nat (Z.to_N num))).
+
+(* ---- case mapping: str::to_uppercase / to_lowercase map every char through the Unicode tables
+   (char::to_uppercase yields 1..3 chars); the tables are external, the ASCII rows are instantiated *)
+Section CaseMap.
+  Variable to_upper to_lower : N -> list N.
+  Variable is_alpha is_space : N -> bool.
+  Definition impl_upper (cs : list N) : outcome (list N) := Ok (flat_map to_upper cs).
+  Definition impl_lower (cs : list N) : outcome (list N) := Ok (flat_map to_lower cs).
+  (* initcap.rs: `for c in s.chars() { if c.is_alphabetic() { .. } else { push(c);
+       capitalize_next = c.is_whitespace() || c == '-' || c == '_' || c == '.' || c == ',' } }` *)
+  Definition is_sep (c : N) : bool := is_space c || (c =? 45) || (c =? 95) || (c =? 46) || (c =? 44).
+  Fixpoint initcap_go (cap_next : bool) (cs : list N) : list N :=
+    match cs with
+    | [] => []
+    | c :: r => if is_alpha c then (if cap_next then to_upper c else to_lower c) ++ initcap_go false r
+                else c :: initcap_go (is_sep c) r
+    end.
+  Definition impl_initcap (cs : list N) : outcome (list N) := Ok (initcap_go true cs).
+End CaseMap.
+
+Definition ascii_upper (c : N) : N := if (97 <=? c) && (c <=? 122) then c - 32 else c.
+Definition ascii_lower (c : N) : N := if (65 <=? c) && (c <=? 90) then c + 32 else c.
+Definition ascii_alpha (c : N) : bool := ((65 <=? c) && (c <=? 90)) || ((97 <=? c) && (c <=? 122)).
+Definition ascii_digit (c : N) : bool := (48 <=? c) && (c <=? 57).
+Definition ascii_space (c : N) : bool := ((9 <=? c) && (c <=? 13)) || (c =? 32).
+Definition is_ascii (cs : list N) : bool := forallb (fun c => c <? 0x80) cs.
+Definition up1 (c : N) : list N := [ascii_upper c].
+Definition lo1 (c : N) : list N := [ascii_lower c].
+Definition upper_ascii (cs : list N) : outcome (list N) := impl_upper up1 cs.
+Definition lower_ascii (cs : list N) : outcome (list N) := impl_lower lo1 cs.
+Definition initcap_ascii (cs : list N) : outcome (list N) := impl_initcap up1 lo1 ascii_alpha ascii_space cs.
+(* definitions: upper / lower map letter by letter; initcap (PostgreSQL): first letter of each word
+   upper case, the rest lower case, words = maximal runs of alphanumeric characters *)
+Definition spec_upper_ascii (cs : list N) : list N := map ascii_upper cs.
+Definition spec_lower_ascii (cs : list N) : list N := map ascii_lower cs.
+Fixpoint spec_initcap_go (prev_alnum : bool) (cs : list N) : list N :=
+  match cs with
+  | [] => []
+  | c :: r => (if prev_alnum then ascii_lower c else ascii_upper c)
+              :: spec_initcap_go (ascii_alpha c || ascii_digit c) r
+  end.
+Definition spec_initcap_ascii (cs : list N) : list N := spec_initcap_go false cs.
+(* the separators initcap.rs knows: everything that is not alphanumeric must be one of them *)
+Definition initcap_seps_known (cs : list N) : bool :=
+  forallb (fun c => ascii_alpha c || ascii_digit c || is_sep ascii_space c) cs.
 
 (* The transcriptions as they were before the fixes 0e7aca77d (lpad/rpad), 5eee47bd9 (substring),
    16bd2d89d (left/right): kept only for the regression witnesses in proofs/StrFnProofs.v. *)
